@@ -24,6 +24,7 @@ import (
 //	mode "loop":    a producer written here that follows the protocol (Trigger; exited.Load; abortPending)
 //	mode "accept0": the real acceptor callback accept0 on a listening unix socket with one connection waiting
 //	mode "enroll":  the real eventloop.enroll (Engine.Register with a net.Conn) on one end of a socket pair
+//	mode "enrollctx": the real Client.EnrollContext on one end of a socket pair
 //
 // When both are done nobody will touch the queue again; what is still in it is stranded.
 type VerifDrainResult struct {
@@ -117,7 +118,7 @@ func VerifDrainHammer(mode string, rounds int) (res VerifDrainResult, err error)
 				unix.Close(peer) //nolint:errcheck
 				return res, err
 			}
-		case "enroll":
+		case "enroll", "enrollctx":
 			sp, e := unix.Socketpair(unix.AF_UNIX, unix.SOCK_STREAM|unix.SOCK_CLOEXEC, 0)
 			if e != nil {
 				return res, e
@@ -171,6 +172,20 @@ func VerifDrainHammer(mode string, rounds int) (res VerifDrainResult, err error)
 			case "accept0":
 				if e := acc.accept0(lnfd, 0, 0); e != nil {
 					res.Errors++
+				}
+			case "enrollctx":
+				done := make(chan bool, 1)
+				go func() {
+					_, e := (&Client{opts: eng.opts, eng: eng}).EnrollContext(handedConn, nil)
+					done <- e == nil
+				}()
+				select {
+				case registered := <-done:
+					if registered {
+						res.Errors++ // nobody runs tasks in this set-up: a success would be wrong
+					}
+				case <-time.After(10 * time.Second):
+					unanswered = true
 				}
 			case "enroll":
 				ch, e := target.enroll(handedConn, handedConn.RemoteAddr(), nil)
